@@ -1,6 +1,6 @@
 #!/bin/bash
 # like try_mutation.sh but in a scratch worktree (/tmp/rt) selected through FV_REPO, so /repo stays untouched
-patch="$1"; tier="$2"; shift 2
+patch="$(realpath "$1")"; tier="$2"; shift 2
 wt=${WT:-/tmp/rt}
 cd $wt || exit 2
 git checkout -q -- . ; git clean -fdq -- dsl_compiler lib compile.py
